@@ -418,6 +418,21 @@ def r4_lm_step(rule, root=None):
     n, c, l_, r_ = ifs[0]
     rose_then = (c["op"] in (">", ">=") and l_ == "err") or (c["op"] in ("<", "<=") and l_ == "prev_err")
     rose, accepted = (n["then"], n.get("else")) if rose_then else (n.get("else"), n["then"])
+    if (accepted is None or rose is None):
+        # `if worse { ..; continue; }` followed by the accepted case (or the mirror image): the rest of the enclosing
+        # block is the other branch
+        present = rose if accepted is None else accepted
+        if present is not None and (list(A.find(present, "Continue")) or list(A.find(present, "Break"))):
+            for blk in A.find(solve["body"], "Block"):
+                ss = blk.get("stmts") or []
+                for i_, st in enumerate(ss):
+                    e_ = A.strip(st.get("e", st)) if st.get("k") == "ExprStmt" else st
+                    if e_ is n:
+                        rest = {"k": "Block", "stmts": ss[i_ + 1:], "ln": n["ln"]}
+                        if accepted is None:
+                            accepted = rest
+                        else:
+                            rose = rest
 
     def factor(block):
         """net factor applied to `damping` in a block (None: not a pure scaling)"""
